@@ -1057,3 +1057,175 @@ verif_proof! { [C40 C03]
         leak(r); leak(r2); leak(mv);
     }
 }
+
+// ---- WAL growth: every section stored behind the log moves by `delta`; the TOC must follow ----
+// `shift_data_for_wal_growth` moves ALL bytes between the end of the log region and the end of
+// the file. Obligation (C01: histories that cross embedded-WAL growth): after
+// `adjust_offsets_after_wal_growth(delta)` every non-zero offset recorded in the TOC — frame
+// payloads, segments, lex/vec/clip indexes, time index, memories track, logic mesh, sketch
+// track, replay segment — is exactly `delta` larger, so that the TOC written right afterwards
+// (`rewrite_toc_footer` in grow_wal_region / ensure_wal_capacity) still points at the data.
+fn any_off() -> u64 {
+    let o: u64 = kani::any();
+    kani::assume(o >= 4096 + 65536 && o < 1 << 40);
+    o
+}
+fn growth_offsets_step(sections: u8) {
+    let mut toc = crate::memvid::lifecycle::empty_toc();
+    let mut o = [0u64; 10];
+    let mut i = 0;
+    while i < 10 { o[i] = any_off(); i += 1; }
+    let z = [0u8; 32];
+    let mut f = mk_frame(0, 0, FrameStatus::Active);
+    f.payload_offset = o[0];
+    f.payload_length = 1;
+    toc.frames.push(f);
+    if sections == 0 {
+        toc.time_index = Some(crate::types::TimeIndexManifest { bytes_offset: o[1], bytes_length: 1, entry_count: 1, checksum: z });
+        toc.indexes.vec = Some(crate::types::VecIndexManifest { vector_count: 1, dimension: 1, bytes_offset: o[2], bytes_length: 1, checksum: z, compression_mode: crate::types::VectorCompression::None, model: None });
+        toc.indexes.lex = Some(crate::types::LexIndexManifest { doc_count: 1, generation: 0, bytes_offset: o[3], bytes_length: 1, checksum: z });
+        toc.segments.push(crate::types::SegmentMeta { id: 0, frame_range: (0, 0), primary_checksum: z, compression: crate::types::SegmentCompression::None, bytes_offset: o[9], bytes_length: 1 });
+    } else {
+        toc.indexes.clip = Some(crate::clip::ClipIndexManifest { bytes_offset: o[4], bytes_length: 1, vector_count: 1, dimension: 1, checksum: z, model_name: String::new() });
+        toc.memories_track = Some(crate::types::MemoriesTrackManifest { bytes_offset: o[5], bytes_length: 1, card_count: 1, entity_count: 1, checksum: z });
+        toc.logic_mesh = Some(crate::types::LogicMeshManifest { bytes_offset: o[6], bytes_length: 1, node_count: 1, edge_count: 0, checksum: z });
+        toc.sketch_track = Some(crate::types::SketchTrackManifest { bytes_offset: o[7], bytes_length: 1, entry_count: 1, entry_size: 32, flags: 0, checksum: z });
+        toc.replay_manifest = Some(crate::replay::ReplayManifest { segment_offset: o[8], segment_size: 1, session_count: 1, total_actions: 1, version: 1 });
+    }
+    let mut mv = mk_memvid(toc, mk_header(65536));
+    let delta: u64 = kani::any();
+    kani::assume(delta >= 1 && delta < 1 << 40);
+    mv.adjust_offsets_after_wal_growth(delta);
+    let t = &mv.toc;
+    assert!(t.frames[0].payload_offset == o[0] + delta, "[C01] WAL growth moved the payloads but not a frame's payload offset");
+    if sections == 0 {
+        assert!(t.time_index.as_ref().map(|m| m.bytes_offset) == Some(o[1] + delta), "[C01] WAL growth moved the time index but not its manifest offset");
+        assert!(t.indexes.vec.as_ref().map(|m| m.bytes_offset) == Some(o[2] + delta), "[C01] WAL growth moved the vector index but not its manifest offset");
+        assert!(t.indexes.lex.as_ref().map(|m| m.bytes_offset) == Some(o[3] + delta), "[C01] WAL growth moved the lexical index but not its manifest offset");
+        assert!(t.segments[0].bytes_offset == o[9] + delta, "[C01] WAL growth moved a segment but not its recorded offset");
+    } else {
+        assert!(t.indexes.clip.as_ref().map(|m| m.bytes_offset) == Some(o[4] + delta), "[C01] WAL growth moved the CLIP index but not its manifest offset: the TOC written next points at the wrong bytes");
+        assert!(t.memories_track.as_ref().map(|m| m.bytes_offset) == Some(o[5] + delta), "[C01] WAL growth moved the memories track but not its manifest offset: the TOC written next points at the wrong bytes");
+        assert!(t.logic_mesh.as_ref().map(|m| m.bytes_offset) == Some(o[6] + delta), "[C01] WAL growth moved the logic mesh but not its manifest offset: the TOC written next points at the wrong bytes");
+        assert!(t.sketch_track.as_ref().map(|m| m.bytes_offset) == Some(o[7] + delta), "[C01] WAL growth moved the sketch track but not its manifest offset: the next open fails with 'Invalid sketch track magic'");
+        assert!(t.replay_manifest.as_ref().map(|m| m.segment_offset) == Some(o[8] + delta), "[C01] WAL growth moved the replay segment but not its manifest offset");
+    }
+    kani::cover!(true, "offsets adjusted");
+    leak(mv);
+}
+verif_proof! { [C01 C40]
+    #[kani::unwind(12)]
+    #[kani::use_stub_set(crate::verif_env::memvid_stubs)]
+    fn c01_wal_growth_shifts_frames_and_indexes() { growth_offsets_step(0); }
+}
+verif_proof! { [C01 C40 C27]
+    #[kani::unwind(12)]
+    #[kani::use_stub_set(crate::verif_env::memvid_stubs)]
+    fn c01_wal_growth_shifts_tracks() { growth_offsets_step(1); }
+}
+
+// grow_wal_region / ensure_wal_capacity: the data is shifted while the header still describes
+// the OLD log region (the shift computes its start from header.wal_size), then header, data_end,
+// TOC offsets move by the same delta, then TOC+footer, header, fsync, and the log is reopened.
+const G_SHIFT: u8 = 1;
+const G_REWRITE: u8 = 2;
+const G_PERSIST: u8 = 3;
+const G_SYNC: u8 = 4;
+const G_WALOPEN: u8 = 5;
+static mut GLOG: [u8; 8] = [0; 8];
+static mut GN: usize = 0;
+static mut SHIFT_DELTA: u64 = 0;
+static mut SHIFT_WAL_SIZE: u64 = 0;
+static mut SHIFT_FRAME_OFF: u64 = 0;
+static mut REWRITE_FRAME_OFF: u64 = 0;
+static mut REWRITE_WAL_SIZE: u64 = 0;
+static mut PERSIST_WAL_SIZE: u64 = 0;
+static mut WALOPEN_SIZE: u64 = 0;
+fn glog(k: u8) { unsafe { if GN < 8 { GLOG[GN] = k; } GN += 1; } }
+fn gpos(k: u8) -> usize {
+    let mut i = 0;
+    let mut p = usize::MAX;
+    while i < 8 { unsafe { if i < GN && GLOG[i] == k && p == usize::MAX { p = i; } } i += 1; }
+    p
+}
+fn gg_shift(mv: &mut Memvid, delta: u64) -> Result<()> {
+    glog(G_SHIFT);
+    unsafe { SHIFT_DELTA = delta; SHIFT_WAL_SIZE = mv.header.wal_size; SHIFT_FRAME_OFF = mv.toc.frames[0].payload_offset; }
+    Ok(())
+}
+fn gg_rewrite(mv: &mut Memvid) -> Result<()> {
+    glog(G_REWRITE);
+    unsafe { REWRITE_FRAME_OFF = mv.toc.frames[0].payload_offset; REWRITE_WAL_SIZE = mv.header.wal_size; }
+    Ok(())
+}
+fn gg_persist(_f: &mut File, h: &crate::types::Header) -> Result<()> { glog(G_PERSIST); unsafe { PERSIST_WAL_SIZE = h.wal_size; } Ok(()) }
+fn gg_sync(_f: &File) -> std::io::Result<()> { glog(G_SYNC); Ok(()) }
+fn gg_wal_open(file: &File, header: &crate::types::Header) -> Result<EmbeddedWal> {
+    glog(G_WALOPEN);
+    unsafe { WALOPEN_SIZE = header.wal_size; }
+    Ok(tagged_wal(file.as_raw_fd()))
+}
+#[cfg(kani)]
+kani::stub_set!(growth_stubs,
+    use_stub_set(crate::verif_env::memvid_stubs),
+    stub(crate::memvid::lifecycle::Memvid::shift_data_for_wal_growth, crate::memvid::mutation::verif_mutation::gg_shift),
+    stub(crate::memvid::lifecycle::Memvid::rewrite_toc_footer, crate::memvid::mutation::verif_mutation::gg_rewrite),
+    stub(crate::persist_header, crate::memvid::mutation::verif_mutation::gg_persist),
+    stub(std::fs::File::sync_all, crate::memvid::mutation::verif_mutation::gg_sync),
+    stub(crate::io::wal::EmbeddedWal::open, crate::memvid::mutation::verif_mutation::gg_wal_open),
+    stub(<std::os::fd::OwnedFd as core::ops::Drop>::drop, crate::memvid::mutation::verif_mutation::g_fd_drop),
+    stub(alloc::fmt::format, crate::verif_env::stub_format),
+);
+fn growth_protocol(presize: bool) {
+    let mut toc = crate::memvid::lifecycle::empty_toc();
+    let off0 = any_off();
+    let mut f = mk_frame(0, 0, FrameStatus::Active);
+    f.payload_offset = off0;
+    f.payload_length = 1;
+    toc.frames.push(f);
+    let wal0: u64 = if kani::any() { 65536 } else { 1 << 20 };
+    let mut mv = mk_memvid(toc, mk_header(wal0));
+    let end0: u64 = kani::any();
+    kani::assume(end0 > off0 && end0 < 1 << 41);
+    mv.data_end = end0;
+    mv.header.footer_offset = end0;
+    unsafe { GN = 0; SHIFT_DELTA = 0; }
+    let want: u64 = kani::any();
+    kani::assume(want >= 1 && want <= 1 << 24);
+    // append_wal_entry asks for max(entry size, current size + 1): growth is only requested beyond the current size
+    if !presize { kani::assume(want > wal0); }
+    let old_wal = core::mem::replace(&mut mv.wal, tagged_wal(3));
+    leak(old_wal);
+    let r = if presize { mv.ensure_wal_capacity(want) } else { mv.grow_wal_region(want) };
+    assert!(r.is_ok(), "[C01] growing the log region failed although nothing failed");
+    let new = mv.header.wal_size;
+    if presize && want <= wal0 {
+        assert!(unsafe { GN } == 0 && new == wal0 && mv.toc.frames[0].payload_offset == off0, "[C40] pre-sizing to a size the log already has touched the file");
+    } else {
+        let delta = new - wal0;
+        assert!(new > wal0 && new >= want && (presize || new > want), "[C01] the log region did not grow enough for the entry that did not fit");
+        assert!(gpos(G_SHIFT) == 0 && unsafe { SHIFT_DELTA } == delta, "[C01] the data behind the log was not shifted by exactly the amount the log grew");
+        assert!(unsafe { SHIFT_WAL_SIZE } == wal0 && unsafe { SHIFT_FRAME_OFF } == off0, "[C01] the data was shifted after the header/TOC were already updated: the shift starts at the wrong place (payload bytes are left behind and zero-filled)");
+        assert!(mv.toc.frames[0].payload_offset == off0 + delta && mv.data_end == end0 + delta, "[C01] offsets do not follow the shifted data");
+        assert!(mv.header.footer_offset >= mv.data_end, "[C01] footer placed inside the data after log growth");
+        let (i_rw, i_ph, i_sy, i_wo) = (gpos(G_REWRITE), gpos(G_PERSIST), gpos(G_SYNC), gpos(G_WALOPEN));
+        assert!(i_rw != usize::MAX && i_ph != usize::MAX && i_sy != usize::MAX && i_wo != usize::MAX, "[C01] log growth skipped the TOC rewrite, the header write, the fsync or reopening the log");
+        assert!(i_rw < i_ph && i_ph < i_sy && i_sy < i_wo, "[C03] log growth steps out of order (TOC/footer, header, fsync, reopen log)");
+        assert!(unsafe { REWRITE_FRAME_OFF } == off0 + delta && unsafe { REWRITE_WAL_SIZE } == new, "[C01] the TOC was rewritten before the offsets were adjusted");
+        assert!(unsafe { PERSIST_WAL_SIZE } == new && unsafe { WALOPEN_SIZE } == new, "[C01] header persisted / log reopened with the old region size");
+        kani::cover!(delta == 65536, "doubling from 64 KiB");
+    }
+    kani::cover!(true, "reached");
+    leak(r);
+    leak(mv);
+}
+verif_proof! { [C01 C03]
+    #[kani::unwind(12)]
+    #[kani::use_stub_set(crate::memvid::mutation::verif_mutation::growth_stubs)]
+    fn c01_grow_wal_region_protocol() { growth_protocol(false); }
+}
+verif_proof! { [C40 C01 C03]
+    #[kani::unwind(12)]
+    #[kani::use_stub_set(crate::memvid::mutation::verif_mutation::growth_stubs)]
+    fn c40_wal_presize_protocol() { growth_protocol(true); }
+}
